@@ -51,7 +51,13 @@ type Result struct {
 	Note       string              `json:"note,omitempty"`
 }
 
+// resMu makes the Result helpers safe for monitors that are called from engine goroutines
+// (hook events of a background merge) while the case's own goroutine records as well.
+var resMu sync.Mutex
+
 func (r *Result) Add(name string, n int64) {
+	resMu.Lock()
+	defer resMu.Unlock()
 	if r.Counters == nil {
 		r.Counters = map[string]int64{}
 	}
@@ -59,6 +65,8 @@ func (r *Result) Add(name string, n int64) {
 }
 
 func (r *Result) SetAdd(name, v string) {
+	resMu.Lock()
+	defer resMu.Unlock()
 	if r.Sets == nil {
 		r.Sets = map[string][]string{}
 	}
@@ -73,6 +81,8 @@ func (r *Result) SetAdd(name, v string) {
 }
 
 func (r *Result) Violate(msg string, features map[string]string, detail any) {
+	resMu.Lock()
+	defer resMu.Unlock()
 	r.Verdict = "violated"
 	if len(r.Violations) < 8 {
 		r.Violations = append(r.Violations, Violation{Msg: msg, Features: features, Detail: detail})
